@@ -572,17 +572,18 @@ func runC09(c *fw.Ctx) {
 				}
 				pure := !strings.HasPrefix(off, "peer-rst") && off != "handler-panic"
 				for _, fin := range fins {
-					for _, burst := range []bool{false, true} {
+					for _, mode := range []string{"", "one-segment", "finish-mid"} {
+						burst := mode == "one-segment"
 						if burst && !pure {
 							continue // the offending track of these reads the server's state between frames
+						}
+						if mode == "finish-mid" && !split {
+							continue // a handler can only return between HEADERS and CONTINUATION if there is one
 						}
 						if item++; !c.Mine(item) {
 							continue
 						}
-						cs := c09Case{Offence: off, Split: split, Order: ord, Finish: fin, Burst: burst}
-						if split && !burst && (item%2 == 0) {
-							cs.FinishMid = true
-						}
+						cs := c09Case{Offence: off, Split: split, Order: ord, Finish: fin, Burst: burst, FinishMid: mode == "finish-mid"}
 						v, h, _ := c09Exec(cs)
 						js, _ := json.Marshal(cs)
 						c.Eval(nt(true, js))
